@@ -112,6 +112,7 @@ func VerifC13Race(h *verifh.H) {
 	var p1, p2 string
 	var err1, err2 error
 	h.SymbolicLocks()
+	h.SymbolicTxns() // also before every Badger transaction /repo code starts (a state write after the lock was released)
 	h.SymbolicSched(h.Param("preemptions", 2))
 	h.Go(func() { p1, err1 = use(e1, via1) })
 	h.Go(func() { p2, err2 = use(e2, via2) })
